@@ -1,5 +1,6 @@
 import Dmn.Model.FType
 import Dmn.Model.Coerce
+import Dmn.Model.DNum
 
 /-!
 # Values of the DMN model layer (C03, C11, C12)
@@ -7,8 +8,10 @@ import Dmn.Model.Coerce
 The FEEL evaluator is modelled elsewhere; the model layer only needs a small value type:
 what a decision table, an item-definition check and the output coercion *look at*.
 
-* `num n` — an exact **integer** (`Int`).  The correspondence generates integer numbers
-  only, so that sum / min / max / equality are exact without a decimal model.
+* `num n` — an exact **decimal** (`DNum`, `Model/DNum.lean`): the value `coeff / 10^scale` in
+  normal form, so that the structural equality of this type is `FeelNumber`'s numeric equality
+  (`1.0 = 1`, `1.10 = 1.1`); order and sum are exact, the 34-digit rounding of `+=` is
+  `DNum.addR`.
 * `str s` — a string as its list of code points (`List Char`); ordering is code-point
   lexicographic (= Rust's byte-wise `String` ordering on UTF-8).
 * `atom k text` — a value whose only observable features are its kind (date, time, date and
@@ -49,7 +52,7 @@ inductive AKind where
 inductive DTValue where
   | null
   | bool (b : Bool)
-  | num (n : Int)
+  | num (n : DNum)
   | str (s : List Char)
   | atom (k : AKind) (text : List Char)
   | list (xs : List DTValue)
